@@ -33,6 +33,36 @@ func renderings(d *gen.PipeDoc, r *rand.Rand, nYAML int, discard func(style, why
 			discard(style, err.Error())
 			continue
 		}
+		// whole-document layout variants: uniform indentation, leading blank / comment lines, document start marker
+		switch r.IntN(8) {
+		case 0:
+			pad := strings.Repeat(" ", 1+r.IntN(4))
+			lines := strings.Split(strings.TrimRight(txt, "\n"), "\n")
+			for i, l := range lines {
+				if l != "" {
+					lines[i] = pad + l
+				}
+			}
+			txt = strings.Join(lines, "\n") + "\n"
+			style += "+indented"
+		case 1:
+			txt = "\n\n# leading comment\n\n" + txt
+			style += "+leading-blank-lines"
+		case 2:
+			txt = "---\n" + txt
+			style += "+document-marker"
+		case 3:
+			txt = "\n  \n" + strings.Join(func() []string {
+				ls := strings.Split(strings.TrimRight(txt, "\n"), "\n")
+				for i, l := range ls {
+					if l != "" {
+						ls[i] = "  " + l
+					}
+				}
+				return ls
+			}(), "\n") + "\n"
+			style += "+blank-then-indented"
+		}
 		back, err := doc.FromYAMLInput([]byte(txt))
 		if err != nil {
 			discard(style, "unreadable: "+err.Error())
